@@ -5,6 +5,7 @@ import CV.Proofs.InvValueLoop
 import CV.Proofs.InvTasksThm
 import CV.Proofs.InvTasksOnce
 import CV.Proofs.InvTasksWait
+import CV.Proofs.InvTasksRange
 /-
 C04 - value layer.  `Val.set` is the function the machine calls for every non-None handler
 result (`setValue` in CV.Model.Core.Machine); these theorems say that whatever sequence of
@@ -338,11 +339,14 @@ Clauses that are sanity conditions:
          later step raises KeyError in `removeHandler`).  Believed unreachable in guarded sessions (it needs a handler list
          computed before the resumption, i.e. a `_dispatcher` suspended below the task loop, which (tick) excludes; or a stale
          cache entry), NOT proved: it needs "handler lists held by frames / cache entries contain only installed handlers";
-  (gen)  the event whose handler returned a generator exists, (own) a task whose user generator yields a `call`/`wait` is an
-         ordinary task `(e, g, None)` of an existing event: invariants of sessions that start with empty queues, NOT proved
-         (they need "event ids in queues / timers / frames are in range" and "a task with a parent is never a user generator";
-         `values_wf` of this file is about the shape of Values, not about ids).  No counter-example exists for them in sessions
-         from an empty initial state; with an arbitrary initial queue they can fail trivially (a dangling id in `s0`).
+  (gen)  the event whose handler returned a generator exists: PROVED for all sessions (`Reach`, no guard) from the range
+         invariant `T46RQ` - ids in queues, in `Timer.event` and in the frames `.dispatcher/.hLoop/.hAfter/.hApply` are ids of
+         existing events - under the Init hypothesis `T46InitQ` (the ids in the initial queues / timers exist, e.g. empty
+         queues): `event_ids_in_range`, `guard_min_suffices_partial`;
+  (own)  a task whose user generator yields a `call`/`wait` is an ordinary task `(e, g, None)` of an existing event: NOT proved.
+         The relation for it exists (`St.T46K`, CV/Proofs/InvTasksKBase.lean + generated InvTasksK.lean: tables grow, carrier
+         generators stay carriers, every new task is `T46TaskOk`); missing are the lemmas for the helpers that register tasks or
+         overwrite generators and the `cases f`.  No counter-example is known.
 
 RUN LEVEL: `eventDone_once_partial` (passes ≤ dispatches, CV/Proofs/InvTasksOnce.lean).  OPEN: the ownership counts for user generators and
 the upgrade of C06 `caller_completes_partial`. -/
@@ -374,6 +378,34 @@ example (s0 : St) : T46ReachC s0 (startOf (envChange s0 0 []) (.tick 0)) := T46R
 example : T46GuardCore { st := {} } :=
   ⟨fun _ _ h => (by cases h), fun _ _ h => (by cases h), fun _ _ _ _ _ _ h => (by cases h),
    fun _ _ _ _ h => (by cases h), fun _ _ _ _ _ h => (by cases h)⟩
+
+/-- non-vacuity of `T46InitQ`: empty queues, timers that have not fired -/
+example : T46InitQ {} := T46InitQ.of_empty {} (fun x => by cases x <;> exact ⟨rfl, rfl⟩) (fun i tm h => by simp at h)
+example : T46InitQ C05.s0w := T46InitQ.of_empty _ (fun x => by cases x <;> exact ⟨rfl, rfl⟩) (fun i tm h => by
+  have : C05.s0w.timers = [] := rfl
+  rw [this] at h; simp at h)
+
+/-- **event ids are in range** (FULL: every session, no guard).  From an initial state whose queued / timer event ids exist, in
+    every reachable configuration every id in a queue (deque and heap) of any component, every `Timer.event`, and the event of
+    every `.dispatcher / .hLoop / .hAfter / .hApply` frame is the id of an existing event.  In particular the event of a
+    handler loop exists when a handler's generator is registered (clause (gen) of `T46Guard`). -/
+theorem event_ids_in_range (s0 : St) (h0 : T46InitQ s0) (c : Cfg) (hr : Reach s0 c) :
+    (∀ x it, (it ∈ (c.st.comp x).eq.queue ∨ it ∈ (c.st.comp x).eq.heap) → it.ev < c.st.evs.length) ∧
+    (∀ (i : Nat) (tm : TimerSt) (te : Nat), c.st.timers[i]? = some tm → tm.ev = some te → te < c.st.evs.length) ∧
+    (∀ f ∈ c.stack, ∀ e, f.t46_dEv = some e → e < c.st.evs.length) ∧
+    (∀ r e rest err v k, c.stack = .hApply r e rest err v :: k → e < c.st.evs.length) :=
+  ⟨(t46_reach_rq h0 c hr).ok.1, (t46_reach_rq h0 c hr).ok.2, (t46_reach_rq h0 c hr).fr,
+   fun r e rest err v k hs => (t46_reach_rq h0 c hr).gen r e rest err v k hs⟩
+
+/-- **the minimal guard**: `T46GuardMin` = (tick), (root), (own) and the second half of (done).  An admissible session (C06) from
+    an initial state satisfying `W6InitWait` and `T46InitQ` on which it holds at every step is a guarded session: all
+    `_partial` theorems of this section apply to it. -/
+theorem guard_min_suffices_partial (s0 : St) (hi : W6InitWait s0) (hq : T46InitQ s0) (c : Cfg) (h : T46ReachM s0 c) :
+    T46Reach s0 c := h.guarded hi hq
+
+example (s0 : St) : T46ReachM s0 (startOf (envChange s0 0 []) (.tick 0)) := T46ReachM.init 0 [] (.tick 0) trivial
+example : T46GuardMin { st := {} } :=
+  ⟨fun _ _ h => (by cases h), fun _ _ h => (by cases h), fun _ _ _ _ h => (by cases h), fun _ _ _ _ _ h => (by cases h)⟩
 
 /-- **waiting_accounting** (PARTIAL: guarded sessions).  In every configuration, for every event:
     task weights + pending-wait weights + frame weights ≤ `waitingHandlers`; in particular the counter is never negative. -/
